@@ -149,6 +149,7 @@ class LibRDEngine(RDEngineBase) :
 
     def setup(self, script) :
         
+        self._simulation_unfinished = 1
         self._script = script.copy()
         
         units_system = script.units_system.copy()
